@@ -2129,6 +2129,14 @@ class CatchExceptionDataset(Dataset):
             LOG.info(f'{self.__class__.__name__} filtered {catched_count} of {total_count} examples (catched expections: {types}).')
 
 
+class _FilteredExample:
+    """
+    Returned by the prefetch workers instead of an example that raised one of
+    the exceptions selected with `catch_filter_exception`.
+    """
+    pass
+
+
 class PrefetchDataset(Dataset):
     def __init__(
             self,
@@ -2227,7 +2235,9 @@ class PrefetchDataset(Dataset):
             else:
                 catch_filter_exception = self.catch_filter_exception
 
-            unique_object = object()
+            # The marker travels through pickle/dill for the process
+            # backends, so it cannot be recognized by identity.
+            unique_object = _FilteredExample()
 
             if with_key:
                 def catcher(key):
@@ -2252,7 +2262,7 @@ class PrefetchDataset(Dataset):
                 backend=self.backend,
             ):
                 total_count += 1
-                if data is unique_object:
+                if isinstance(data, _FilteredExample):
                     catched_count += 1
                 else:
                     yield data
